@@ -26,6 +26,8 @@ pub trait Vals<F> {
 pub enum Op {
     /// commit a high-level variable
     Commit,
+    /// commit the value 0 with blinding 0 (the commitment is the identity point)
+    CommitZero,
     /// allocate_multiplier
     AllocMul,
     /// allocate (single variable)
@@ -108,7 +110,7 @@ impl Shape {
         (n1, n2)
     }
     pub fn commits(&self) -> usize {
-        self.phase1.iter().filter(|o| **o == Op::Commit).count()
+        self.phase1.iter().filter(|o| **o == Op::Commit || **o == Op::CommitZero).count()
     }
     pub fn padded(&self) -> usize {
         let (a, b) = self.gates();
@@ -257,7 +259,7 @@ impl<G: AffineRepr> Shared<G> {
 
 /// What the driver needs from a constraint system beyond the public trait.
 pub trait RoleCS<G: AffineRepr>: ConstraintSystem<FOf<G>> {
-    fn role_commit(&mut self, _sh: &mut Shared<G>) -> Variable<FOf<G>> {
+    fn role_commit(&mut self, _sh: &mut Shared<G>, _zero: bool) -> Variable<FOf<G>> {
         panic!("commit in the randomized phase")
     }
     fn role_set_gate(&mut self, _i: usize, _l: FOf<G>, _r: FOf<G>, _o: FOf<G>) {}
@@ -267,9 +269,8 @@ pub trait RoleCS<G: AffineRepr>: ConstraintSystem<FOf<G>> {
 }
 
 impl<'g, 't, G: AffineRepr> RoleCS<G> for Prover<'g, G, &'t mut Transcript> {
-    fn role_commit(&mut self, sh: &mut Shared<G>) -> Variable<FOf<G>> {
-        let v = sh.draw("v");
-        let vb = sh.draw("vb");
+    fn role_commit(&mut self, sh: &mut Shared<G>, zero: bool) -> Variable<FOf<G>> {
+        let (v, vb) = if zero { (FOf::<G>::zero(), FOf::<G>::zero()) } else { (sh.draw("v"), sh.draw("vb")) };
         let (V, var) = self.commit(v, vb);
         sh.v.push(v);
         sh.v_blinding.push(vb);
@@ -290,9 +291,8 @@ impl<'g, 't, G: AffineRepr> RoleCS<G> for RandomizingProver<'g, G, &'t mut Trans
     }
 }
 impl<'t, G: AffineRepr> RoleCS<G> for Verifier<G, &'t mut Transcript> {
-    fn role_commit(&mut self, sh: &mut Shared<G>) -> Variable<FOf<G>> {
-        let v = sh.draw("v");
-        let _vb = sh.draw("vb");
+    fn role_commit(&mut self, sh: &mut Shared<G>, zero: bool) -> Variable<FOf<G>> {
+        let (v, _vb) = if zero { (FOf::<G>::zero(), FOf::<G>::zero()) } else { (sh.draw("v"), sh.draw("vb")) };
         let j = sh.v.len();
         sh.v.push(v);
         let V = sh.verifier_commitments[j];
@@ -319,8 +319,8 @@ pub fn run_ops<G: AffineRepr, CS: RoleCS<G>>(cs: &mut CS, ops: &[Op], shr: &Rc<R
     let prover = sh.is_prover;
     for op in ops {
         match op {
-            Op::Commit => {
-                let var = cs.role_commit(sh);
+            Op::Commit | Op::CommitZero => {
+                let var = cs.role_commit(sh, *op == Op::CommitZero);
                 sh.handles.push(show_var(&var));
             }
             Op::AllocMul => {
